@@ -35,21 +35,74 @@ func init() {
 	register(vx.CheckSpec{ID: "C17", Shards: 8, QuickBudget: 100 * time.Second, ThoroughBudg: 20 * time.Minute, Run: runC17, ReplayFn: replayC17})
 }
 
-var c17Keys = []string{"a", "ab", "b"}
+// The key universe is switched per part (parts run one after the other in a process).
+type c17Universe struct {
+	Name     string
+	Keys     []string
+	Prefixes []string
+	Starts   []string
+	NoNS     bool // keys are used without a per-history namespace (needed for all-0xff prefixes)
+}
+
+var c17Universes = map[string]c17Universe{
+	"lockstep": {Name: "lockstep", Keys: []string{"a", "ab", "b"}, Prefixes: []string{"", "a", "ab", "c"}, Starts: []string{"", "a", "ab", "b", "c"}},
+	// prefixes that END in 0xff: the exclusive upper bound of such a prefix needs a carry ("a\xff" -> "b")
+	"edge-bytes": {Name: "edge-bytes", Keys: []string{"a\xff", "a\xff\xff", "b"}, Prefixes: []string{"", "a", "a\xff", "a\xff\xff", "b"}, Starts: []string{"", "\xff", "b"}},
+	// prefixes made of 0xff only have NO upper bound; they can only be formed without a namespace
+	"edge-bytes-root": {Name: "edge-bytes-root", Keys: []string{"\xff", "\xff\xff", "\xff\xff\x00"}, Prefixes: []string{"\xff", "\xff\xff"}, Starts: []string{"", "\x00", "\xff"}, NoNS: true},
+}
+
+var c17U = c17Universes["lockstep"]
+var c17Keys = c17U.Keys
 var c17Vals = []string{"v1", "v2", ""}
+
+func c17Use(name string) {
+	c17U = c17Universes[name]
+	c17Keys = c17U.Keys
+}
 
 type c17Op struct {
 	Kind string `json:"op"` // put del bput bdel track bwrite breset replaydb replayb2 b2write
-	K    string `json:"k,omitempty"`
+	K    string `json:"-"`
 	V    string `json:"v,omitempty"`
+	// keys may hold bytes that are not UTF-8: the artefact carries them in hex
+	KHex string `json:"k_hex,omitempty"`
+}
+
+func (o c17Op) MarshalJSON() ([]byte, error) {
+	type plain c17Op
+	q := plain(o)
+	q.KHex = fmt.Sprintf("%x", o.K)
+	return jsonMarshal(q)
+}
+
+func (o *c17Op) UnmarshalJSON(b []byte) error {
+	type plain c17Op
+	var q struct {
+		plain
+		OldK string `json:"k"`
+	}
+	if err := jsonUnmarshal(b, &q); err != nil {
+		return err
+	}
+	*o = c17Op(q.plain)
+	if q.KHex != "" {
+		var raw []byte
+		fmt.Sscanf(q.KHex, "%x", &raw)
+		o.K = string(raw)
+	} else {
+		o.K = q.OldK
+	}
+	o.KHex = ""
+	return nil
 }
 
 func (o c17Op) String() string {
 	switch o.Kind {
 	case "put", "bput":
-		return fmt.Sprintf("%s(%s,%q)", o.Kind, o.K, o.V)
+		return fmt.Sprintf("%s(%q,%q)", o.Kind, o.K, o.V)
 	case "del", "bdel":
-		return fmt.Sprintf("%s(%s)", o.Kind, o.K)
+		return fmt.Sprintf("%s(%q)", o.Kind, o.K)
 	}
 	return o.Kind
 }
@@ -58,7 +111,7 @@ func c17Alphabet() []c17Op {
 	var ops []c17Op
 	for _, k := range c17Keys {
 		for _, v := range c17Vals {
-			ops = append(ops, c17Op{"put", k, v})
+			ops = append(ops, c17Op{Kind: "put", K: k, V: v})
 		}
 	}
 	for _, k := range c17Keys {
@@ -66,7 +119,7 @@ func c17Alphabet() []c17Op {
 	}
 	for _, k := range c17Keys {
 		for _, v := range c17Vals {
-			ops = append(ops, c17Op{"bput", k, v})
+			ops = append(ops, c17Op{Kind: "bput", K: k, V: v})
 		}
 	}
 	for _, k := range c17Keys {
@@ -280,25 +333,25 @@ func (r *c17Run) observe(sizeBefore int, o c17Op) string {
 		v, err := r.e.db.Get(r.key(k))
 		has, herr := r.e.db.Has(r.key(k))
 		if herr != nil {
-			fmt.Fprintf(&sb, "has(%s)=ERR;", k)
+			fmt.Fprintf(&sb, "has(%q)=ERR;", k)
 		}
 		if err != nil {
-			fmt.Fprintf(&sb, "get(%s)=absent has=%v;", k, has)
+			fmt.Fprintf(&sb, "get(%q)=absent has=%v;", k, has)
 		} else {
-			fmt.Fprintf(&sb, "get(%s)=%q has=%v;", k, v, has)
+			fmt.Fprintf(&sb, "get(%q)=%q has=%v;", k, v, has)
 		}
 	}
-	for _, pre := range []string{"", "a", "ab", "c"} {
-		for _, st := range []string{"", "a", "ab", "b", "c"} {
+	for _, pre := range c17U.Prefixes {
+		for _, st := range c17U.Starts {
 			it := r.e.db.NewIterator([]byte(r.ns+pre), []byte(st))
-			fmt.Fprintf(&sb, "it(%s,%s)=[", pre, st)
+			fmt.Fprintf(&sb, "it(%q,%q)=[", pre, st)
 			for it.Next() {
 				k := it.Key()
 				if !bytes.HasPrefix(k, []byte(r.ns)) {
 					fmt.Fprintf(&sb, "FOREIGN-KEY %q,", k)
 					continue
 				}
-				fmt.Fprintf(&sb, "%s=%q,", k[len(r.ns):], it.Value())
+				fmt.Fprintf(&sb, "%q=%q,", k[len(r.ns):], it.Value())
 			}
 			if it.Error() != nil {
 				sb.WriteString("ERR")
@@ -309,7 +362,7 @@ func (r *c17Run) observe(sizeBefore int, o c17Op) string {
 	}
 	for _, k := range c17Keys {
 		del, data := r.b.GetPending(r.key(k))
-		fmt.Fprintf(&sb, "pend(%s)=%v,nil=%v,%q;", k, del, data == nil, data)
+		fmt.Fprintf(&sb, "pend(%q)=%v,nil=%v,%q;", k, del, data == nil, data)
 	}
 	// ValueSize: the unit is engine-defined; the interface-level facts are 0 for a fresh/reset
 	// batch and monotone growth while operations are queued.
@@ -327,9 +380,9 @@ func (m *c17Model) observe(o c17Op) string {
 	var sb strings.Builder
 	for _, k := range c17Keys {
 		if v, ok := m.store[k]; ok {
-			fmt.Fprintf(&sb, "get(%s)=%q has=true;", k, v)
+			fmt.Fprintf(&sb, "get(%q)=%q has=true;", k, v)
 		} else {
-			fmt.Fprintf(&sb, "get(%s)=absent has=false;", k)
+			fmt.Fprintf(&sb, "get(%q)=absent has=false;", k)
 		}
 	}
 	ks := make([]string, 0, len(m.store))
@@ -337,12 +390,12 @@ func (m *c17Model) observe(o c17Op) string {
 		ks = append(ks, k)
 	}
 	sort.Strings(ks)
-	for _, pre := range []string{"", "a", "ab", "c"} {
-		for _, st := range []string{"", "a", "ab", "b", "c"} {
-			fmt.Fprintf(&sb, "it(%s,%s)=[", pre, st)
+	for _, pre := range c17U.Prefixes {
+		for _, st := range c17U.Starts {
+			fmt.Fprintf(&sb, "it(%q,%q)=[", pre, st)
 			for _, k := range ks {
 				if strings.HasPrefix(k, pre) && k >= pre+st {
-					fmt.Fprintf(&sb, "%s=%q,", k, m.store[k])
+					fmt.Fprintf(&sb, "%q=%q,", k, m.store[k])
 				}
 			}
 			sb.WriteString("];")
@@ -351,12 +404,12 @@ func (m *c17Model) observe(o c17Op) string {
 	for _, k := range c17Keys {
 		if p, ok := m.pending[k]; ok && m.tracking {
 			if p.del {
-				fmt.Fprintf(&sb, "pend(%s)=true,nil=true,%q;", k, "")
+				fmt.Fprintf(&sb, "pend(%q)=true,nil=true,%q;", k, "")
 			} else {
-				fmt.Fprintf(&sb, "pend(%s)=false,nil=false,%q;", k, p.v)
+				fmt.Fprintf(&sb, "pend(%q)=false,nil=false,%q;", k, p.v)
 			}
 		} else {
-			fmt.Fprintf(&sb, "pend(%s)=false,nil=true,%q;", k, "")
+			fmt.Fprintf(&sb, "pend(%q)=false,nil=true,%q;", k, "")
 		}
 	}
 	switch o.Kind {
@@ -374,6 +427,9 @@ type c17Div struct{ key, desc string }
 
 func c17Exec(engs []c17Engine, nsid int64, hist []c17Op, p *vx.Part) (divs []c17Div) {
 	ns := fmt.Sprintf("n%09d|", nsid)
+	if c17U.NoNS {
+		ns = ""
+	}
 	m := newC17Model()
 	runs := make([]*c17Run, len(engs))
 	for i, e := range engs {
@@ -442,7 +498,7 @@ func c17DiffClass(want, got string) string {
 }
 
 func runC17(c *vx.Ctx) {
-	c.Rule = "BFS over operation histories (alphabet of 30 DB/batch operations on keys a,ab,b) deduplicated on the canonical reference-model state; every successor is executed on the 5 real engine configurations and all observers are compared with the model; outcome class = operation kind x observation shape"
+	c.Rule = "BFS over operation histories (alphabet of 30 DB/batch operations on three keys; three key universes: a/ab/b, keys and iterator prefixes ending in 0xff, un-namespaced all-0xff prefixes) deduplicated on the canonical reference-model state; every successor is executed on the 5 real engine configurations and all observers are compared with the model; outcome class = operation kind x observation shape"
 	c.Assume("ValueSize units are engine-defined: only 'zero after reset' and monotone growth are compared")
 	c.Assume("a committed batch is only reset afterwards (double Write / Put-after-Write are outside the interface contract: pebble panics by design)")
 	c.Assume("pending tracking is switched on on an empty batch, as the block processor and the worker do")
@@ -466,9 +522,31 @@ func runC17(c *vx.Ctx) {
 	}
 	defer closeAll()
 
-	p := c.Part("lockstep")
+	unis := []struct {
+		name  string
+		depth int
+	}{{"lockstep", depth}, {"edge-bytes", depth - 1}, {"edge-bytes-root", depth - 1}}
+	for _, u := range unis {
+		if !c.Wants(u.name) {
+			continue
+		}
+		c17Use(u.name)
+		c17BFS(c, u.name, u.depth, engs)
+	}
+	c17Use("lockstep")
+}
+
+type c17Replay struct {
+	Universe string  `json:"universe"`
+	Hist     []c17Op `json:"history"`
+}
+
+func c17BFS(c *vx.Ctx, part string, depth int, engs []c17Engine) {
+	p := c.Part(part)
 	p.Bound("depth", depth)
-	p.Bound("keys", c17Keys)
+	p.Bound("keys", fmt.Sprintf("%q", c17Keys))
+	p.Bound("iterator_prefixes", fmt.Sprintf("%q", c17U.Prefixes))
+	p.Bound("iterator_starts", fmt.Sprintf("%q", c17U.Starts))
 	p.Bound("values", c17Vals)
 	names := []string{}
 	for _, e := range engs {
@@ -527,7 +605,7 @@ func runC17(c *vx.Ctx) {
 							}
 							return ""
 						}) {
-							c.Violate("lockstep", dv.key, dv.desc, hist)
+							c.Violate(part, dv.key, dv.desc, c17Replay{Universe: part, Hist: hist})
 						}
 					}
 					if len(divs) == 0 && len(hist) == depth {
@@ -553,7 +631,12 @@ func runC17(c *vx.Ctx) {
 func replayC17(c *vx.Ctx, v vx.Violation) string {
 	raw, _ := jsonMarshal(v.Replay)
 	var hist []c17Op
-	if err := jsonUnmarshal(raw, &hist); err != nil {
+	var rp c17Replay
+	if err := jsonUnmarshal(raw, &rp); err == nil && rp.Universe != "" {
+		hist = rp.Hist
+		c17Use(rp.Universe)
+		defer c17Use("lockstep")
+	} else if err := jsonUnmarshal(raw, &hist); err != nil {
 		return "bad replay: " + err.Error()
 	}
 	dir, _ := os.MkdirTemp("/dev/shm", "vq-c17-")
